@@ -63,6 +63,7 @@ type stats struct {
 	SkipProbes    int            `json:"expect_skip_probes"`
 	GCRemoved     int            `json:"record_files_removed_by_gc"`
 	GCTemps       int            `json:"temporaries_removed_by_gc"`
+	GCBroken      int            `json:"gcs_with_a_broken_build_file"`
 	Twins         int            `json:"twin_histories"`
 	TwinBuilds    int            `json:"twin_builds_compared"`
 	Edits         map[string]int `json:"edit_kinds"`
@@ -361,6 +362,36 @@ func (j *judge) judgeDry(i int, op *Op, o *Obs, prev *Obs) {
 }
 
 func (j *judge) judgeGC(i int, op *Op, p *Proj, o *Obs, prev *Obs) {
+	if op.ExpectFail {
+		// the build files do not load: a collection that cannot know what exists must not remove anything that exists
+		// once the file is repaired (p.live() does not look at Broken); failing outright is the expected behaviour
+		j.st.GCBroken++
+		if o.TreeBefore != o.TreeAfter {
+			j.viol("gc-not-confined", i, "gc changed something outside .dawn/build")
+		}
+		if prev == nil {
+			return
+		}
+		live := map[string]bool{}
+		for _, t := range p.live() {
+			live[t.Label()] = true
+			if t.Default {
+				live[defaultLabel(t.Pkg)] = true
+			}
+			for _, s := range p.srcsOf(t) {
+				live[sourceLabelOf(s)] = true
+			}
+		}
+		for l, r := range prev.Records {
+			if (o.Exit == exitOK && !live[l]) || emptyRecV(r) {
+				continue
+			}
+			if nr, ok := o.Records[l]; !ok || semRec(nr) != semRec(r) {
+				j.viol("gc-loses-live-record", i, "gc (exit %d) while the build file of a package does not load changed or removed the record of %s: %v → %v", o.Exit, l, r, o.Records[l])
+			}
+		}
+		return
+	}
 	if o.Exit != exitOK {
 		j.viol("gc-fails", i, "gc exited %d", o.Exit)
 		return
